@@ -133,6 +133,41 @@ Theorem C03_document_vram_layout : forall d rt w u ext0,
 Proof. exact document_vram_layout. Qed.
 
 (* ====================================================================== *)
+(* 4. C05 over the document                                                *)
+(* ====================================================================== *)
+
+(* for each included segment, in the state at the end of the pass (SegmentGroups / GroupChain,
+   Spec/DocLevel.v): the output section .s (resp. .s.noload) is found in l_secs and, going up from its start
+   address, each section group of alloc_sections (resp. noload_sections), in list order, has
+   START <= END, SIZE = END - START, starts at or after the END of the previous group and ends at or
+   below the end of the output section; the placements of the final state contain a block - what the
+   group placed - of placements in that output section at addresses within [START, END].
+   Error condition: no LForwardRef for the allocatable section of THIS segment. *)
+Theorem C05_document_groups : forall env senv ext final d rt w u seg,
+  gen_normal d rt = Ok w -> doc_link_wf d rt = true ->
+  Forall (fun x => 0 <= u_size x) u ->
+  In seg (included rt (doc_segments d)) ->
+  let sty := linker_symbols_style (doc_settings d) in
+  let st' := exec_script env senv ext final (wo_script w) (init_state u) in
+  ~ In (LForwardRef (alloc_name seg)) (l_errors st') ->
+  SegmentGroups sty st' seg.
+Proof. exact document_groups. Qed.
+
+Theorem C05_document_groups_layout : forall d rt w u ext0 seg,
+  gen_normal d rt = Ok w -> doc_link_wf d rt = true ->
+  Forall (fun x => 0 <= u_size x) u ->
+  In seg (included rt (doc_segments d)) ->
+  let sty := linker_symbols_style (doc_settings d) in
+  let st' := layout (wo_script w) u ext0 in
+  ~ In (LForwardRef (alloc_name seg)) (l_errors st') ->
+  SegmentGroups sty st' seg.
+Proof. exact document_groups_layout. Qed.
+
+(* the counting used by doc_link_wf for the group symbols agrees with [assigns] *)
+Theorem DocLevel_count_assigns : forall x l, existsb (assigns x) l = false <-> count_assigns x l = 0%nat.
+Proof. exact existsb_count. Qed.
+
+(* ====================================================================== *)
 (* 5. C10 over the document                                                *)
 (* ====================================================================== *)
 
@@ -188,7 +223,16 @@ Example ex_doc_link :
   val st "ovl_b_ROM_START" = Some 112 /\ val st "ovl_b_ROM_END" = Some 176 /\ val st "__romPos" = Some 176 /\
   val st "boot_VRAM_END" = Some 172 /\ val st "ovl_a_VRAM_END" = Some 2148532256 /\
   val st "ovl_b_VRAM_END" = Some 2148532292 /\ val st "overlay_VRAM_CLASS_END" = Some 2148532292 /\
-  val st "overlay_VRAM_CLASS_SIZE" = Some 68.
+  val st "overlay_VRAM_CLASS_SIZE" = Some 68 /\
+  (* the groups of .ovl_b [2148532224, 2148532288): .text, .data, .sdata in order *)
+  val st "ovl_b_TEXT_START" = Some 2148532224 /\ val st "ovl_b_TEXT_END" = Some 2148532272 /\
+  val st "ovl_b_DATA_START" = Some 2148532272 /\ val st "ovl_b_DATA_END" = Some 2148532288 /\
+  val st "ovl_b_DATA_SIZE" = Some 16 /\
+  val st "ovl_b_SDATA_START" = Some 2148532288 /\ val st "ovl_b_SDATA_END" = Some 2148532288 /\
+  map (fun p => (pl_marker p, pl_addr p, pl_outsec p)) (l_placed st) =
+  [("boot_text", 0, ".boot"); ("boot_data", 40, ".boot"); ("boot_bss", 72, ".boot.noload");
+   ("a_text", 2148532224, ".ovl_a"); ("a_bss", 2148532248, ".ovl_a.noload");
+   ("b_text", 2148532224, ".ovl_b"); ("b_data", 2148532272, ".ovl_b"); ("b_bss", 2148532288, ".ovl_b.noload")].
 Proof. vm_compute. repeat split; reflexivity. Qed.
 
 Print Assumptions DocLevel_script_shape.
@@ -198,5 +242,8 @@ Print Assumptions C04_document_rom_chain.
 Print Assumptions C04_document_rom_chain_layout.
 Print Assumptions C03_document_vram.
 Print Assumptions C03_document_vram_layout.
+Print Assumptions C05_document_groups.
+Print Assumptions C05_document_groups_layout.
+Print Assumptions DocLevel_count_assigns.
 Print Assumptions C10_document_classes.
 Print Assumptions C10_document_classes_layout.
